@@ -144,9 +144,26 @@ theorem sound_aux (ρ : Env) : (e : Expr) → EnvOk ρ e →
       have : a.max = .fin c := by cases hh : a.max <;> simp_all [ExtInt.toInt?]
       simp only [boundFn, if_true, this]
       exact constRange_sound c
-    · intro v _ x hx
-      simp only [cv, cvBound] at hx
-      split at hx <;> cases hx
+    · intro v hev x hx
+      simp only [cv] at hx
+      simp only [eval] at hev
+      cases ha : abs e with
+      | none => rw [ha] at hx; simp [cvBound] at hx
+      | some a =>
+        rw [ha] at hx hev
+        cases a with
+        | int a =>
+          simp only [absBound] at hx
+          simp only at hev
+          cases hm : a.max with
+          | fin c =>
+            simp [boundFn, hm, ExtInt.isInf, cvBound] at hx
+            simp [hm, ExtInt.toInt?] at hev
+            rw [← hx, ← hev]
+          | posInf => simp [boundFn, hm, ExtInt.isInf, cvBound] at hx
+          | negInf => simp [boundFn, hm, ExtInt.isInf, cvBound] at hx
+        | bool _ => simp [absBound, cvBound] at hx
+        | enum _ => simp [absBound, cvBound] at hx
   | .lower e, henv => by
     refine ⟨?_, ?_⟩
     · intro ty v h1 h2
@@ -161,9 +178,26 @@ theorem sound_aux (ρ : Env) : (e : Expr) → EnvOk ρ e →
       have : a.min = .fin c := by cases hh : a.min <;> simp_all [ExtInt.toInt?]
       simp only [boundFn, Bool.false_eq_true, if_false, this]
       exact constRange_sound c
-    · intro v _ x hx
-      simp only [cv, cvBound] at hx
-      split at hx <;> cases hx
+    · intro v hev x hx
+      simp only [cv] at hx
+      simp only [eval] at hev
+      cases ha : abs e with
+      | none => rw [ha] at hx; simp [cvBound] at hx
+      | some a =>
+        rw [ha] at hx hev
+        cases a with
+        | int a =>
+          simp only [absBound] at hx
+          simp only at hev
+          cases hm : a.min with
+          | fin c =>
+            simp [boundFn, hm, ExtInt.isInf, cvBound] at hx
+            simp [hm, ExtInt.toInt?] at hev
+            rw [← hx, ← hev]
+          | posInf => simp [boundFn, hm, ExtInt.isInf, cvBound] at hx
+          | negInf => simp [boundFn, hm, ExtInt.isInf, cvBound] at hx
+        | bool _ => simp [absBound, cvBound] at hx
+        | enum _ => simp [absBound, cvBound] at hx
   | .cref e, henv => by
     have ih := sound_aux ρ e henv
     refine ⟨?_, ?_⟩
@@ -179,6 +213,13 @@ theorem sound_aux (ρ : Env) : (e : Expr) → EnvOk ρ e →
         exact atypeConstCV_sound (ih.1 _ _ ha h2) hx
   | .vref e, henv => by
     have ih := sound_aux ρ e henv
+    refine ⟨?_, ?_⟩
+    · intro ty v h1 h2
+      simp only [abs] at h1; simp only [eval] at h2
+      exact ih.1 _ _ h1 h2
+    · intro v _ x hx; simp [cv] at hx
+  | .present a c, henv => by
+    have ih := sound_aux ρ c henv
     refine ⟨?_, ?_⟩
     · intro ty v h1 h2
       simp only [abs] at h1; simp only [eval] at h2
